@@ -1,5 +1,5 @@
 #!/bin/bash
-# tools/confirm_mutant.sh <out-dir> <X>   (X = A|B)
+# tools/confirm_mutant.sh <out-dir> <X>   (X = A|B|C|D)
 # Confirms a seeded change in a scratch worktree at /repo's HEAD: applies, builds, runs the
 # repository's test suite (must equal the baseline), runs the demo with and without the change.
 O="$1"; X="$2"
